@@ -319,6 +319,8 @@ def model_guided_oob(ctx, exe, mexe, rng, budget, stats):
     real heap."""
     # learn the real Dn per capacity
     caps = [5, 6, 7, 10, 11, 12, 13, 14, 15, 21, 26, 28, 31, 33, 34, 60, 100, 143, 144, 250]
+    # capacities where the real Dn is below the proved requirement get searched first
+    caps = [c for c in stats.get("dn_small_caps", []) if 3 <= c <= 2000][:12] + caps
     probe = [{"cap": c, "ops": [("i", 0, 1)], "dump": False} for c in caps]
     dns = [r["dn"] for r in run_impl(ctx, exe, probe)]
     cases, cdn = [], []
@@ -341,6 +343,48 @@ def model_guided_oob(ctx, exe, mexe, rng, budget, stats):
         if not ctx.has_violation():
             ctx.mismatch(hits[0], "model reports OOB/FUEL with the real Dn but the real heap ran clean")
     return len(cases)
+
+
+def fib_caps(limit):
+    a, b, out = 1, 2, set()
+    while a <= limit:
+        for d in (-1, 0, 1):
+            if 1 <= a + d <= limit:
+                out.add(a + d)
+        a, b = b, a + b
+    return out
+
+
+def dn_obligation(ctx, exe, mexe, rng, stats, quick):
+    """The theorems need Dn >= dn_req cap (fh_no_oob) and model the constructor as dn_fixed cap
+    (fh_fixed_no_oob).  Read the REAL Dn for many capacities (every Fibonacci number and its two
+    neighbours, all small capacities, random ones) and compare with the extracted dn_req / dn_fixed."""
+    limit = 200000 if quick else 2000000
+    caps = sorted(set(range(1, 301)) | fib_caps(limit) | {rng.randrange(1, limit) for _ in range(60 if quick else 600)})
+    probe = [{"cap": c, "ops": [], "dump": False} for c in caps]
+    real = [r["dn"] for r in run_impl(ctx, exe, probe)]
+    r = ctx.run(mexe, "".join("Q %d\n" % c for c in caps), timeout=600)
+    want = {}
+    for line in r.out.splitlines():
+        w = line.split()
+        if len(w) == 4 and w[0] == "Q":
+            want[int(w[1])] = (int(w[2]), int(w[3]))
+    if len(want) != len(caps):
+        raise vlib.BuildError("model driver failed on Q commands: " + r.err[-300:])
+    too_small = [(c, d, want[c][0]) for c, d in zip(caps, real) if d is None or d < want[c][0]]
+    differs = [(c, d, want[c][1]) for c, d in zip(caps, real) if d != want[c][1]]
+    stats["dn_probed_capacities"] = len(caps)
+    stats["dn_below_requirement"] = len(too_small)
+    if differs:
+        c, d, w = differs[0]
+        ctx.mismatch({"cap": c, "ops": []}, "constructor: real Dn = %s, model dn_fixed = %s at capacity %d "
+                     "(%d capacities differ)" % (d, w, c, len(differs)))
+    if too_small:
+        c, d, w = too_small[0]
+        ctx.unshown("Dn = %s is below the Fibonacci requirement dn_req = %s at capacity %d (%d capacities): "
+                    "fh_no_oob no longer applies" % (d, w, c, len(too_small)))
+        stats["dn_small_caps"] = [t[0] for t in too_small[:20]]
+    return len(caps)
 
 
 def adversary_search(ctx, exe, mexe, rng, stats, quick):
@@ -429,6 +473,7 @@ def run(ctx):
     n = 0
     for i in range(0, len(cases), 2000):
         n += evaluate(ctx, exe, mexe, cases[i:i + 2000], stats)
+    n += dn_obligation(ctx, exe, mexe, rng, stats, quick)
     n += adversary_search(ctx, exe, mexe, rng, stats, quick)
     if not ctx.has_violation():
         n += model_guided_oob(ctx, exe, mexe, rng, 3000 if quick and not ctx.is_unshown() else 40000, stats)
